@@ -268,6 +268,8 @@ func classify(msg string) string {
 		return "dict-name"
 	case has("type specifier expected after []"):
 		return "array-type"
+	case has("type specifier expected"):
+		return "type-expected"
 	case has("only string or bytes can have dict modifier"):
 		return "dict-prim"
 	case has("identifier expected"):
@@ -1715,7 +1717,7 @@ func nonASCIITexts(r *rng.R, n int) {
 
 var fixedParseCases = []string{
 	"", " ", "package", "package a", "package a.", "package a struct", "package a struct A {}",
-	"package a struct A root {}", "package a struct A root { X }", // known: missing type
+	"package a struct A root {}", "package a struct A root { X }", // missing type (panicked before a64277c)
 	"package a struct A root { X optional }",
 	"package a struct A root { F M } multimap M { key value string }",
 	"package a struct A root { F M } multimap M { key dict(D) value string }",
@@ -1875,8 +1877,10 @@ func runC13() {
 	for i, t := range fixed {
 		printParseCase(fmt.Sprintf("fixed%d", i), t)
 	}
-	// pass A: trigger-free schemas (any failure here is a fresh violation);
-	// pass B: schemas that may contain the triggers of recorded findings.
+	// pass A: schemas without the trigger patterns of recorded / repaired findings (any failure
+	// here is a fresh violation); pass B: schemas that may contain them (enum-typed fields, dict on
+	// array elements, no root). The signatures of repaired findings are kept so that a
+	// regression is reported under its old name.
 	n := 400
 	if thorough {
 		n = 8000
